@@ -1,0 +1,12 @@
+//go:build verif
+
+// C32: contracts for the deductive verifier in /verif (govc). Only compiled with -tags verif.
+
+package randutil
+
+// C32 (assumption): a loop over math/rand.Intn that appends one byte per round; writes no program
+// state visible to callers
+//@ func RandomString
+//@   trusted
+//@   assigns nothing
+//@   ensures length >= 0 ==> len(result) == length
